@@ -5,7 +5,7 @@
    instantiated by the model's four file-system steps (a crash inside _store = the exception [Crashed]).
    Removable: only the last section of Props/C13.v depends on this file. *)
 From Verif Require Import Lib.Py Lib.Tactics Gen.oscore_replay Model.C12 Model.C13.
-From Verif Require Gen.oscore_seqno Gen.oscore_rwchanged.
+From Verif Require Gen.oscore_seqno Gen.oscore_rwchanged Model.C13Kernel.
 Open Scope Z_scope.
 
 Definition proj (p : proc) : oscore_seqno.fsc :=
